@@ -127,11 +127,13 @@ def run_router_check(prop, tier):
                          "vectors_replayed": len(results), "replay_mismatches": nm,
                          "known_hits": sum(res.known.values()), "tlc_wall_s": round(res.wall, 1),
                          "coverage": {k: list(v) for k, v in res.coverage.items()}}
+    live = vlib.live_versioned(prop, tier, findings) if prop in ("C01", "C04") else {}
     rc = findings.report()
     vlib.write_evidence(
         prop, tier, "model_checking",
         {"states": states, "transitions": transitions,
-         "traces_validated_against_impl": vectors,
+         "traces_validated_against_impl": vectors + live.get("live_route_tables", 0),
+         "live_versioned_server": live,
          "samples": samples,
          "configs": per_cfg,
          "exhaustive": True,
